@@ -17,11 +17,12 @@ def consts(cfg, opens, updates, garbage, stops, depth, sessions=2, pols=(), orig
             "MaxDepth": depth, "MaxSessions": sessions, "Pols": set(pols), "Origs": set(origs)}
 
 
-def run_family(ctx, label, c, budget, design=True, sim=None):
+def run_family(ctx, label, c, budget, design=True, sim=None, allpaths=False):
     if design:
         ctx.design("BGPFSM", vf.cfg_text(constants=dict(c, MaxDepth=99), invariants=INV, properties=PROPS, view="View"),
                    label="design " + label, timeout=3000)
-    r = ctx.tlc("BGPFSM", vf.cfg_text(constants=c, invariants=INV, view="View", action_constraints=["Emit"]), workers=1,
+    # allpaths: no VIEW, every path to the depth bound (events that leave the abstract state alone may still change the real one)
+    r = ctx.tlc("BGPFSM", vf.cfg_text(constants=c, invariants=INV, view=None if allpaths else "View", action_constraints=["Emit"]), workers=1,
                 label="gen " + label, timeout=3000)
     if not r.ok:
         raise vf.Infra("BGPFSM violates its invariants: %s" % r.violation)
